@@ -816,7 +816,7 @@ impl Field {
             let get_args = args.to_tokens_for_table_getter();
             quote!( self.data.read_with_args(range, &#get_args).unwrap() )
         } else if is_var_array {
-            quote!(VarLenArray::read(self.data.split_off(range.start).unwrap()).unwrap())
+            quote!(VarLenArray::read(self.data.slice(range).unwrap()).unwrap())
         } else if is_array {
             quote!(self.data.read_array(range).unwrap())
         } else {
